@@ -11,6 +11,9 @@ type Guard struct {
 	If       *ssa.If
 	Cond     ssa.Value // condition with leading negations removed
 	Polarity bool      // the block runs only when Cond == Polarity
+	// Tr translates operands of Cond into the guarded function's frame when the condition was expanded
+	// from a bool helper (nil otherwise).
+	Tr func(ssa.Value) ssa.Value
 }
 
 // GuardsOf lists the branch conditions that must hold for block b to execute: for every If whose one
@@ -45,6 +48,16 @@ func GuardsOf(b *ssa.BasicBlock) []Guard {
 			pol = !pol
 		}
 		out = append(out, Guard{If: iff, Cond: cond, Polarity: pol})
+		// a condition computed by a bool helper: also offer the helper's own comparisons when the helper can
+		// produce this value in exactly one way (a conjunction)
+		if alts := ExpandLit(Lit{Cond: cond, Val: pol, If: iff}, 2, nil); len(alts) == 1 {
+			for _, l := range alts[0] {
+				if l.Cond == cond {
+					continue
+				}
+				out = append(out, Guard{If: iff, Cond: l.Cond, Polarity: l.Val, Tr: l.Tr})
+			}
+		}
 	}
 	return out
 }
